@@ -94,7 +94,10 @@ Definition pending (l : list wrec) : list pop := pending_acc [] l.
 
 Inductive ev :=
 | ECall (a : api)
-| ECrash (a : api) (whole : bool) (c : option (list (N * N))) (q : option (list pop)).
+| ECrash (a : api) (whole synced : bool) (c : option (list (N * N))) (q : option (list pop)).
+(* [synced]: the call in flight had already completed a log fsync when the crash came (a commit
+   attempt syncs the log first): from then on every operation issued before it is "followed by a
+   successful log sync" and must be recovered unless the commit itself completed *)
 
 Record sst := { sC : cmap; sD : list pop; sU : list pop }.
 Definition sst0 : sst := {| sC := []; sD := []; sU := [] |}.
@@ -130,26 +133,27 @@ Definition inflight_op (a : api) : list pop :=
 Definition is_nil {A} (l : list A) : bool := match l with [] => true | _ => false end.
 
 (** is the observation (contents, queue) after a crash inside / right after call [a] allowed? *)
-Definition crash_allowed (s : sst) (a : api) (whole : bool) (cc : list (N * N)) (qq : list pop) : bool :=
+Definition crash_allowed (s : sst) (a : api) (whole synced : bool) (cc : list (N * N)) (qq : list pop) : bool :=
   let b := sD s ++ sU s in
+  let lo := if synced then b else sD s in
   match a with
   | AddDoc _ _ _ _ | DelDoc _ _ _ =>
-      cont_eqb cc (sC s) && between (sD s) qq (b ++ inflight_op a)
+      cont_eqb cc (sC s) && between lo qq (b ++ inflight_op a)
   | Commit _ =>
       if is_nil b then cont_eqb cc (sC s) && is_nil qq
       else
         let post := apply_all b (sC s) in
         if whole then cont_eqb cc post && is_nil qq
-        else (cont_eqb cc (sC s) && between (sD s) qq b)
+        else (cont_eqb cc (sC s) && between lo qq b)
              || (cont_eqb cc post && (is_nil qq || pops_eqb qq b))
   | Rollback _ =>
       cont_eqb cc (sC s) &&
-      (if whole then is_nil qq else is_nil qq || between (sD s) qq b)
+      (if whole then is_nil qq else is_nil qq || between lo qq b)
   | DropWriter _ | Reopen =>
       cont_eqb cc (sC s) &&
-      (if whole then pops_eqb qq b else between (sD s) qq b)
+      (if whole then pops_eqb qq b else between lo qq b)
   | NewWriter _ | Compact =>
-      cont_eqb cc (sC s) && between (sD s) qq b
+      cont_eqb cc (sC s) && between lo qq b
   end.
 
 Definition spec_call (s : sst) (a : api) : sst :=
@@ -170,10 +174,10 @@ Fixpoint spec_run (s : sst) (i : N) (evs : list ev) : option N * sst :=
   match evs with
   | [] => (None, s)
   | ECall a :: evs' => spec_run (spec_call s a) (N.succ i) evs'
-  | ECrash a whole c q :: evs' =>
+  | ECrash a whole synced c q :: evs' =>
       match c, q with
       | Some cc, Some qq =>
-          if crash_allowed s a whole cc qq
+          if crash_allowed s a whole synced cc qq
           then spec_run {| sC := cc; sD := qq; sU := [] |} (N.succ i) evs'
           else (Some i, s)
       | _, _ => (Some i, s)
